@@ -394,7 +394,7 @@ def spec_nexthop(x, nh_in, nh_out, fam, is_local, what):
 class Prop:
     pid = 'C09'
     props_file = 'Props/C09.v'
-    required_theorems = ['no_echo', 'no_ibgp_nonclient_to_nonclient', 'no_rs_boundary_crossing', 'loops_never_installed', 'ebgp_rewrite', 'ebgp_any_policy', 'ibgp_rewrite', 'ibgp_local_pref_any_policy', 'reflection_adds_originator_and_cluster', 'confed_rewrite', 'llgr_stale_marked', 'llgr_stale_readvertised', 'llgr_stale_readvertised_refuted', 'unknown_attr_rule', 'unknown_attr_rule_any_policy', 'as_path_prepend_spec', 'as_path_full_segment_rule', 'as_path_strip_confed_spec', 'as_path_count_spec', 'ebgp_policy_med', 'policy_actions_keep_decodable', 'no_panic_on_decodable']
+    required_theorems = ['no_echo', 'no_ibgp_nonclient_to_nonclient', 'no_rs_boundary_crossing', 'loops_never_installed', 'ebgp_rewrite', 'ebgp_any_policy', 'ibgp_rewrite', 'ibgp_local_pref_any_policy', 'reflection_adds_originator_and_cluster', 'confed_rewrite', 'llgr_stale_marked', 'llgr_stale_readvertised', 'llgr_stale_readvertised_refuted', 'unknown_attr_rule', 'unknown_attr_rule_any_policy', 'as_path_prepend_spec', 'as_path_full_segment_rule', 'as_path_strip_confed_spec', 'as_path_count_spec', 'ebgp_policy_med', 'policy_actions_keep_decodable', 'no_panic_on_decodable', 'as_path_view_unambiguous']
     correspondence_name = ('Model/Export.v run_case vs daemon/src/event/export.rs + packet/src/bgp.rs AS_PATH edits '
                            '(harness/daemon/export_hx.rs)')
     rule = ('cases = one call of a real function each (AS_PATH edit, is_as_loop, export_attrs, pre_policy_defaults, '
@@ -404,8 +404,28 @@ class Prop:
             'non-trivial when the call rewrites, suppresses or drops something; distinct = distinct (tag, roles, '
             'configuration, shape of input attributes, shape of the observation)')
     exhaustive = {'quick': False, 'thorough': False}
-    trusted_base = []
-    assumptions = []
+    trusted_base = [
+        'attribute vectors are built in the harness with Attribute::new_with_value / new_with_bin / new_opaque (flags of '
+        'recognised attributes are therefore the canonical ones; non-canonical Partial / Extended-Length bits on recognised '
+        'attributes are in the model but are not exercised against the implementation)',
+        "run_select's `if is_as_loop {continue}` (event/mod.rs) is glue replicated in the harness: is_as_loop and "
+        'PeerSession::rx_update are the real functions, the Loc-RIB is read back through TableManager::collect_loc_rib_paths',
+        'export policy is an arbitrary function in the theorems (a Gallina parameter); against the implementation it is '
+        'None or a one-statement table::PolicyAssignment with next-hop / MED actions and accept / reject; conditions, the '
+        'other actions and multi-statement chains are property C14',
+        'BMP Adj-RIB-Out notifications and the RTC filter arguments of process_nlri_change are passed as None',
+        'HashSet iteration order of the Add-Path withdrawals and the partition_point position of an injected LOCAL_PREF in a '
+        'vector that is not partitioned by code are compared modulo order (the property does not constrain them)',
+        'the LLGR scenario uses a one-destination, one-path table; Table::restale_llgr itself is modelled only for that shape',
+    ]
+    assumptions = [
+        'decodable: attribute vectors are what the UPDATE decoder produces (opaque only for unrecognised codes, well-formed '
+        'AS_PATH segments, COMMUNITY length a multiple of 4) - guaranteed by packet/src/bgp.rs (properties C03/C05); '
+        'API-injected vectors (C17) may violate it, and the model then shows the panics / oddities the code has',
+        'Source.role in {Ibgp, IbgpRrClient} implies remote_asn = local_asn (session set-up, properties C07/C16)',
+        'AS numbers of PeerExportContext are u32 (wf_ctx)',
+        'filter_only / policy_keeps_decodable hypotheses on the export policy are stated per theorem',
+    ]
 
     def case_to_json(self, c):
         return c
